@@ -696,6 +696,11 @@ fn run_c10(t: &mut Tape, tier: Tier) -> RunOut {
             p.push((b"X-Amz-Signature".to_vec(), b"deadbeef".to_vec()));
             out.probe("signature_param_present");
         }
+        if t.chance(25) {
+            // nothing but the excluded parameter: the canonical query string is empty
+            p = vec![(b"X-Amz-Signature".to_vec(), b"deadbeef".to_vec())];
+            out.probe("signature_param_present");
+        }
         p
     };
     let want = refm::rcanonq(&pairs);
